@@ -1331,6 +1331,30 @@ def _body(R):
             done += 1
             run_case(R, t, "run")
 
+    # 5b. values that carry items of their own under a nested static key
+    R.scope("run-time contexts with items under a nested static key: earlier values do not change what later values see",
+            "ALL trees of 3 shapes (flat, nested Sequence followed by a later SetContext, Split with two branches) x 5 probes "
+            "(MakeFilename with one / two nested keys, UpdateContextFromStatic, StoreContext, Write) below "
+            "SetContext('n.p') / SetContext('n.q'), run on 5 values of which the first and third carry their own "
+            "{'n': {...}} (overriding one nested key, adding another): every value is named / merged exactly as the "
+            "reference computes it from the static context that precedes the consumer - whatever flowed through before", True)
+    flow_nested = [((1,), {"n": {"p": "rtP", "z": "rtZ"}}), ((2,), {}), ((3,), {"n": {"q": "rtQ"}}), ((4,), {}),
+                   ((5,), {"n": {"p": "rtP2", "q": "rtQ2"}})]
+    saved_flow = list(FLOW)
+    FLOW[:] = flow_nested
+    try:
+        for probe in (["mf", "m#{{n.p}}_{{n.q}}"], ["mf", "m#{{n.p}}"], ["ucfs"], ["store"], ["write", "w#_{{n.p}}_{{n.q}}"]):
+            for probe2 in (["mf", "u#{{n.q}}"], ["ucfs"]):
+                shapes = [
+                    ["seq", [["set", "n.p", "P#"], ["set", "n.q", "Q"], probe, probe2]],
+                    ["seq", [["set", "n.p", "P#"], ["seq", [["set", "n.q", "Q"], probe, probe2]], ["set", "n.p", "late#"]]],
+                    ["seq", [["set", "n.p", "P#"], ["split", [["tup", [["set", "n.q", "Q"], probe]], ["tup", [probe2]]]]]],
+                ]
+                for t in shapes:
+                    run_case(R, number_leaves(copy.deepcopy(t)), "run")
+    finally:
+        FLOW[:] = saved_flow
+
     # 6. one level deeper than the property's quantifier (the statement itself has no depth)
     n6 = 6000 if thorough else 700
     alpha6 = A_EXH + [("d", "{{zz}}"), ("b", "B#"), ("a", "{{a}}+")]
